@@ -223,21 +223,23 @@ def encObs (o : Obs) : String :=
 def stubInterval (id attempt : Nat) : Nat := id * 1000 + attempt
 
 /-- Events → tokens; `obs` is the list of observed durations of the backoff calls, consumed in order. -/
-def encEvents : List (Event Wire) → List Int → List String
+def encEvents (showWire : Bool) : List (Event Wire) → List Int → List String
   | [], _ => []
   | e :: t, obs =>
     match e with
-    | .before ra => ("B" ++ toString ra) :: encEvents t obs
-    | .wire ra w => ("W" ++ toString ra ++ "[" ++ encWire w ++ "]") :: encEvents t obs
-    | .after i o => ("A" ++ toString i ++ "@" ++ encObs o) :: encEvents t obs
-    | .cond id o r => ("C" ++ toString id ++ "@" ++ encObs o ++ "=" ++ (if r then "1" else "0")) :: encEvents t obs
-    | .hook id o => ("H" ++ toString id ++ "@" ++ encObs o) :: encEvents t obs
+    | .before ra => ("B" ++ toString ra) :: encEvents showWire t obs
+    | .wire ra w =>
+      ("W" ++ toString ra ++ (if showWire then "[" ++ encWire w ++ "]" else "")) :: encEvents showWire t obs
+    | .after i o => ("A" ++ toString i ++ "@" ++ encObs o) :: encEvents showWire t obs
+    | .cond id o r =>
+      ("C" ++ toString id ++ "@" ++ encObs o ++ "=" ++ (if r then "1" else "0")) :: encEvents showWire t obs
+    | .hook id o => ("H" ++ toString id ++ "@" ++ encObs o) :: encEvents showWire t obs
     | .interval src a v =>
       -- every interval call was observed by the harness; the observation must be what the
       -- installed function answers (exactly, or — for the randomised backoff — within its bounds)
       let pre := "I" ++ toString a ++ "@" ++ encView v ++ "="
       match obs with
-      | [] => (pre ++ "missing-observation") :: encEvents t []
+      | [] => (pre ++ "missing-observation") :: encEvents showWire t []
       | d :: obs' =>
         let tok := match src with
           | .dflt => toString (100000000 : Nat)
@@ -248,7 +250,7 @@ def encEvents : List (Event Wire) → List Int → List String
             -- the repaired function answers 0 when there is nothing to randomise
             let ok := if h ≤ 0 then d == 0 else decide (h ≤ d) && decide (d < 2 * h)
             if ok then toString d else "out-of-bounds:" ++ toString h
-        (pre ++ tok) :: encEvents t obs'
+        (pre ++ tok) :: encEvents showWire t obs'
 
 def encFinal (f : Final) : String :=
   match f with
@@ -289,7 +291,7 @@ def mkPolicy (ro : Option RetryOption) (conds : List Pred) (hooks : List HookAct
     let hs ← o.hooks.mapM fun id => (hooks[id]?).map fun a => (id, a.apply)
     pure ⟨true, o.maxRetries, cs, hs, after.map Pred.eval, o.interval⟩
 
-def laneRun : List String → String
+def laneRun (showWire : Bool) : List String → String
   | [v, cops, rops, conds, hooks, after, script, bobs,
      cck, chd, cfm, cq, cag,
      method, url, ck, hd, fm, ord, q, mp, files, body] =>
@@ -303,7 +305,7 @@ def laneRun : List String → String
       let st : ReqState := ⟨← decodeHex method, ← decodeHex url, ← decPairs ck, ← decMulti hd, ← decMulti fm,
         ← decPairs ord, ← decMulti q, ← decBool mp, ← decFiles files, ← decBody body⟩
       let tr := run v p (mw v cfg) (unreplayable v st) script st
-      pure (" ".intercalate (encEvents tr.events bobs ++ [encFinal tr.final]))
+      pure (" ".intercalate (encEvents showWire tr.events bobs ++ [encFinal tr.final]))
     r.getD "bad-op"
   | _ => "bad-op"
 
@@ -342,7 +344,9 @@ def lanePolicy : List String → String
   | _ => "bad-op"
 
 def lanes : List (String × (List String → String)) := [
-  ("c10run", laneRun),
+  ("c10run", laneRun true),
+  -- same model, the per-attempt wire requests not printed (the e2e lane compares raw captures itself)
+  ("c10trace", laneRun false),
   ("c10backoff", laneBackoff),
   ("c10policy", lanePolicy)
 ]
